@@ -60,7 +60,30 @@ const ELEMS: [Stmt; 5] = [
   Stmt { text: "<i>t</i>", plants: &[] },
 ];
 
-static LANGS: [LangSpec; 3] = [
+/// both rules match the SAME node in `foo(..)` statements (r2 = any call to foo or bar)
+const CALLS_SAME_NODE: [Stmt; 5] = [
+  Stmt { text: "foo(1)", plants: &[(0, 0, 6), (1, 0, 6)] },
+  Stmt { text: "bar(2)", plants: &[(1, 0, 6)] },
+  Stmt { text: "foo(bar(2))", plants: &[(0, 0, 11), (1, 0, 11), (1, 4, 10)] },
+  Stmt { text: "foo(1); bar(2)", plants: &[(0, 0, 6), (1, 0, 6), (1, 8, 14)] },
+  Stmt { text: "baz(3)", plants: &[] },
+];
+
+static LANGS: [LangSpec; 4] = [
+  LangSpec {
+    name: "javascript-same-node",
+    lang: SupportLang::JavaScript,
+    yaml_lang: "JavaScript",
+    stmts: CALLS_SAME_NODE,
+    open: "// ",
+    close: "",
+    block_header: &["function f() {"],
+    block_footer: &["}"],
+    indent: "  ",
+    r1: r#"{"pattern": "foo($$$)"}"#,
+    r2: r#"{"kind": "call_expression", "regex": "^(foo|bar)[(]"}"#,
+    fix: "qux()",
+  },
   LangSpec {
     name: "javascript",
     lang: SupportLang::JavaScript,
